@@ -222,7 +222,16 @@ def sub_program(case):
     return None
 
 
-SUBS = {"program": sub_program}
+def sub_accessor_written(case):
+    """Accessor level: the grouped mean must write every output cell whatever integer dtype carries the group ids (an unwritten
+    cell holds heap garbage, so it cannot equal the model except by accident) and two calls must agree."""
+    from props import c17
+
+    c17.sub_mean_grp_accessor(case)
+    c17.sub_mean_grp_accessor(case)
+
+
+SUBS = {"program": sub_program, "accessor_written": sub_accessor_written}
 
 DT = {"stats.gammafit": ["int16", "float32", "float64"], "stats.gammastd": ["int16", "float32", "float64"], "stats.gammastd_yxt": ["int16", "float32", "float64"],
       "stats.gammastd_grp": ["int16", "float32"], "stats.mean_grp": ["float32", "int16", "int32", "int64"], "stats.rolling_sum": ["float32", "int16", "int64"],
@@ -285,6 +294,21 @@ def bcase(draw, name, boundary):
 def run(ctx):
     assert_boundscheck_on()
     rec = ctx.rec
+
+    @st.composite
+    def many_groups(draw):
+        idt, k = draw(st.sampled_from([("int8", 128), ("int8", 127), ("uint8", 256), ("uint8", 255), ("int16", 300), ("int8", 2), ("uint8", 3)]))
+        nt = k * draw(st.sampled_from([1, 2]))
+        nd = draw(st.sampled_from([-9999, 0]))
+        px = [[nd if draw(st.integers(0, 9)) == 0 else draw(st.integers(-300, 300)) for _ in range(nt)]]
+        return {"pixels": px, "dtype": draw(st.sampled_from(["int16", "float32"])), "nodata": nd, "dims": ["time", "y", "x"], "nodata_from": "arg",
+                "groups": [t % k for t in range(nt)], "as_array": idt}
+
+    def f_aw(case):
+        rec.case("accessor_written", case, nontrivial=True, cls="ids:%s/%d" % (case["as_array"], max(case["groups"]) + 1))
+        sub_accessor_written(case)
+
+    ctx.given("accessor_written", many_groups(), ctx.n(14, 150), fn=f_aw, shrink=False)
     names = sorted(PROGS)
     rec.extra["programs"] = len(names)
     rec.extra["boundscheck_verified"] = True
